@@ -19,6 +19,10 @@ open(chd + '/drf_properties.h5', 'w').write('props'); open(chd + '/2020-01-01T00
 chs = [[], ['ch0'], ['ch0/'], ['./ch0']][kw.get('ch_style', 0)]
 cmd = ['cp', 'mv', 'ln'][kw.get('cmd', 0)]
 listed = [os.path.relpath(p, src) for p in L.lsdrf(src)]
+if kw.get('dst_pre'):
+    dpre = dst + '/ch0/2020-01-01T00-00-00/rf@1577836810.000.h5'; os.makedirs(os.path.dirname(dpre)); open(dpre, 'w').write('old!')
+    t = os.path.getmtime(chd + '/2020-01-01T00-00-00/rf@1577836810.000.h5'); os.utime(dpre, (t + 5, t + 5))
+srcdata = {r: open(os.path.join(src, r)).read() for r in listed}
 a = argparse.Namespace(src=src, dest=dst, chs=[','.join(chs)] if chs else [], starttime=None, endtime=None, func=None, recursive=True, reverse=False,
                        include_drf=True, include_dmd=True, include_drf_properties=None, include_dmd_properties=None)
 if cmd == 'ln': a.symbolic = bool(kw.get('symbolic'))
@@ -26,6 +30,10 @@ if cmd == 'ln': a.symbolic = bool(kw.get('symbolic'))
 got = sorted(os.path.relpath(os.path.join(d_, f), dst) for d_, _, fs in os.walk(dst) for f in fs)
 print('listed', sorted(listed)); print('at destination', got)
 bad = got != sorted(listed)
+for r in listed:
+    p = os.path.join(dst, r)
+    if os.path.isfile(p) and open(p).read() != srcdata[r]: print('destination', r, 'holds', repr(open(p).read()), 'instead of', repr(srcdata[r])); bad = True
+    if cmd == 'mv' and os.path.exists(os.path.join(src, r)): print('mv left', r, 'in the source'); bad = True
 shutil.rmtree(top)
 sys.exit(1 if bad else 0)
 '''
